@@ -1,9 +1,12 @@
 """C09 — results are a pure function of the input, independent of thread schedule."""
 import re, json, hashlib
+import os
 from ..facts import calls, callee_name, strip_generics, AnalysisIncomplete
 from ..callgraph import CallGraph, public_roots
 from ..cfg import CFG
 from .util import where
+
+V = os.path.dirname(os.path.dirname(os.path.dirname(os.path.abspath(__file__))))
 
 META = {
     'level': 'proof',
@@ -12,6 +15,8 @@ META = {
         'R1': 'every call into rayon is an order-preserving, deterministic adaptor (indexed iterators, map/filter_map/flatten/zip/enumerate, collect into Vec); none is schedule-dependent (reduce/fold/sum/find_any/par_bridge/hash collections/...)',
         'R2': 'every closure executed by a rayon adaptor (and the closures nested in it) captures only shared references to data that is deeply free of interior mutability; no mutable capture',
         'R3': 'no nondeterminism source is reachable from the exported API: hash-container iteration, RNG, clock, thread identity/count, environment, pointer-to-integer casts, mutable or thread-local statics, atomics/locks/cells',
+        'R5': '(thorough tier) independent cross-reference: `cargo clippy` with a disallowed-methods table of the schedule-dependent rayon operations and of clock / thread-identity / '
+              'environment reads (lintcfg/clippy.toml) reports no call in the crate; a positive control (the same lint run on a scratch copy with a parallel `sum` added) must report one',
         'R4': 'sequential sibling: without the rayon feature every function has the same adaptor chain (par_iter->iter etc.) and structurally identical closure bodies',
     },
     'explanation': 'Decides the whole statement given the trusted base: the cell loop and every integral loop are compositions of '
@@ -70,6 +75,8 @@ def run(ctx):
             r1_r2(ctx, ctx.facts(c), '@' + c)
             r3(ctx, ctx.facts(c), c)
     r4(ctx, F, ctx.facts('norayon'))
+    if ctx.tier == 'thorough' and not os.environ.get('VERIF_SELFTEST_CHILD'):
+        ctx.guarded('C09.R5', 'clippy', lambda: r5(ctx))
 
 
 def r1_r2(ctx, F, sfx=''):
@@ -247,3 +254,60 @@ def r4(ctx, Fp, Fs):
             same = body_shape(c) == body_shape(sc)
             ctx.check('C09.R4', strip_generics(c['path']) + ':closure', same, 'MIR shape %s vs %s' % (body_shape(c)[:8], body_shape(sc)[:8]), 'structurally identical closure bodies', where(c), key_extra='closure-shape')
     ctx.floor('C09.R4', 'functions with a parallel/sequential pair', n, 9)
+
+
+def _clippy(repo, tdir):
+    """-> list of (method text, file, line) for clippy::disallowed_methods hits in the library target of `repo`."""
+    import subprocess, json as _json
+    env = dict(os.environ, CLIPPY_CONF_DIR=os.path.join(V, 'lintcfg'), CARGO_TARGET_DIR=tdir, CARGO_NET_OFFLINE='true', CARGO_INCREMENTAL='0')
+    # clippy caches per target dir: make sure the crate itself is re-linted
+    import glob, shutil
+    for d in glob.glob(os.path.join(tdir, 'debug', '.fingerprint', 'meshless_voronoi-*')):
+        shutil.rmtree(d, ignore_errors=True)
+    p = subprocess.run(['cargo', '+nightly', 'clippy', '--offline', '--lib', '--message-format=json', '--', '-A', 'clippy::all', '-W', 'clippy::disallowed_methods'],
+                       cwd=repo, env=env, capture_output=True, text=True)
+    hits = []
+    finished = False
+    for line in p.stdout.splitlines():
+        try:
+            m = _json.loads(line)
+        except ValueError:
+            continue
+        if m.get('reason') == 'build-finished':
+            finished = bool(m.get('success'))
+        if m.get('reason') != 'compiler-message':
+            continue
+        msg = m['message']
+        if (msg.get('code') or {}).get('code') == 'clippy::disallowed_methods':
+            sp = (msg.get('spans') or [{}])[0]
+            hits.append((msg.get('message', ''), sp.get('file_name'), sp.get('line_start')))
+    if not finished:
+        raise AnalysisIncomplete('cargo clippy did not finish: %s' % p.stderr[-400:])
+    return hits
+
+
+def r5(ctx):
+    import tempfile, shutil, subprocess
+    from ..framework import REPO, WORK
+    tdir = os.path.join(WORK, 'target-clippy')
+    hits = _clippy(REPO, tdir)
+    ctx.evaluations += 1
+    if hits:
+        for msg, f, ln in hits:
+            ctx.bad('C09.R5', 'disallowed-call:%s:%s' % (f, msg[:80]), '%s at %s:%s' % (msg, f, ln), 'no schedule-dependent operation / nondeterminism source is called', '%s:%s' % (f, ln), key_extra='clippy')
+    else:
+        ctx.ok('C09.R5', 'no-disallowed-call', 'clippy::disallowed_methods: 0 hits in the library', 'no schedule-dependent operation / nondeterminism source is called')
+    # positive control on a scratch copy
+    tmp = tempfile.mkdtemp(prefix='mv-clippy-')
+    try:
+        dst = os.path.join(tmp, 'repo')
+        shutil.copytree(REPO, dst, ignore=shutil.ignore_patterns('target', '.git', '_out'))
+        pp = subprocess.run(['patch', '-p1', '-s', '-i', os.path.join(V, 'lintcfg', 'positive_control.diff')], cwd=dst, capture_output=True, text=True)
+        if pp.returncode != 0:
+            ctx.notes.append('C09.R5 positive control patch does not apply to the current tree (skipped)')
+            return
+        h2 = _clippy(dst, tdir)
+        ctx.evaluations += 1
+        ctx.check('C09.R5', 'positive-control', len(h2) >= 1, '%d hit(s) on the control variant' % len(h2), 'the lint reports the added parallel sum', None, key_extra='control')
+    finally:
+        shutil.rmtree(tmp, ignore_errors=True)
